@@ -594,6 +594,7 @@ pub fn structural_floors(thorough: bool) -> Vec<(&'static str, u64)> {
         ("family:ab3-subsets", 90_000),
         ("family:fanout", 700),
         ("family:fanout-x-width", 100),
+        ("family:duplicated-wide-fans", 80),
         ("family:cache-digest-collision", 40),
         ("family:single-bytes", 500),
         ("family:long-keys", 16),
